@@ -39,8 +39,9 @@ pub fn posted(case: &SpeedCase, bases: &[f64], x: f64) -> f64 {
         }
         let add = if set.head_end { 0.0 } else { case.tp.length };
         for (a, b, s) in &set.limits {
-            if bases[j] + a <= x && x < bases[j] + b + add && *s < p {
-                p = *s;
+            // restrictions are enforced by magnitude (a negative speed is a marked restriction)
+            if bases[j] + a <= x && x < bases[j] + b + add && s.abs() < p {
+                p = s.abs();
             }
         }
     }
@@ -182,11 +183,12 @@ pub fn check_speed(case: &SpeedCase, cx: &mut Ctx, id: &str, exact: bool) {
         let mut v = f64::NAN;
         for p in &sp {
             if p.0 <= x {
-                v = p.1;
+                v = p.1.abs();
             }
         }
         v
     };
+    cx.label_if(case.links.iter().any(|l| l.sets.iter().any(|s| s.limits.iter().any(|x| x.2 < 0.0))), "negative_restriction_speed");
     let mut n_mid = 0;
     for w in bps.windows(2) {
         let m = 0.5 * (w[0] + w[1]);
@@ -250,7 +252,7 @@ pub fn check_speed(case: &SpeedCase, cx: &mut Ctx, id: &str, exact: bool) {
                     let mut e = f64::NAN;
                     for p in &sp1 {
                         if p.0 <= m {
-                            e = p.1;
+                            e = p.1.abs();
                         }
                     }
                     if e > posted(case, &b, m) || e.is_nan() {
